@@ -13,9 +13,9 @@ for stem in "$@"; do
   cd $WT; git checkout -q -- .; git clean -qfd tests
   cp /tmp/wt/out/${stem}_demo.rs tests/seeded_${stem}.rs
   # without patch
-  cargo test --offline --all-features --test seeded_${stem} > /tmp/wt/confirm/${stem}.clean.log 2>&1; clean_rc=$?
+  cargo test --offline --test seeded_${stem} > /tmp/wt/confirm/${stem}.clean.log 2>&1; clean_rc=$?
   git apply /tmp/wt/out/${stem}.patch.diff; apply_rc=$?
-  cargo test --offline --all-features --test seeded_${stem} > /tmp/wt/confirm/${stem}.patched.log 2>&1; patched_rc=$?
+  cargo test --offline --test seeded_${stem} > /tmp/wt/confirm/${stem}.patched.log 2>&1; patched_rc=$?
   rm tests/seeded_${stem}.rs
   cargo test --workspace --no-fail-fast --offline > /tmp/wt/confirm/${stem}.suite.log 2>&1; suite_rc=$?
   passed=$(grep -h "^test result" /tmp/wt/confirm/${stem}.suite.log | sed 's/.* \([0-9]*\) passed.*/\1/' | paste -sd+ | bc)
